@@ -272,6 +272,35 @@ fn prop_checks(cfg: &Cfg, ep: &Endpoint, script_labels: &[String], step: usize, 
 /// `expand`: every MORE-flagged data frame of the model stands for `expand` real frames, so that
 /// the model's FrameCap (3) lines up with the code's 255 (expand = 85).
 pub fn run(index: usize, b: &Behaviour, enc: EncImpl, seed: u64, mutate: bool, perturb: bool, expand: usize) -> Outcome {
+  run_cut(index, b, enc, seed, mutate, perturb, expand, None)
+}
+
+/// The command frames (step index, label, body length) a behaviour emits: the sweep of body cuts goes over these.
+pub fn command_tokens(b: &Behaviour, enc: EncImpl, seed: u64) -> Vec<(usize, String, usize)> {
+  let mut rng = StdRng::seed_from_u64(seed);
+  let mut out = Vec::new();
+  let mut before = String::new();
+  for (si, st) in b.steps.iter().enumerate() {
+    if st["a"].as_str() != Some("emit") {
+      continue;
+    }
+    if st["tok"]["k"].as_str() == Some("fr") && st["tok"]["cmd"].as_bool() == Some(true) {
+      let bytes = concretize(&st["tok"], &b.cfg, enc, &mut rng);
+      if bytes.len() >= 2 {
+        let hdr = if bytes[0] & 0x02 != 0 { 9 } else { 2 };
+        // the label carries what the peer sent before: the same command in another phase is another case
+        out.push((si, format!("{} after [{}]", tok_label(&st["tok"]), before), bytes.len().saturating_sub(hdr)));
+      }
+    }
+    before.push_str(&tok_label(&st["tok"]));
+    before.push(' ');
+  }
+  out
+}
+
+/// `cut = Some((step, k))`: the command frame emitted at that step keeps only the first k bytes of its body, with a
+/// frame header that says so - a well-formed frame around a body that ends early, at every possible place.
+pub fn run_cut(index: usize, b: &Behaviour, enc: EncImpl, seed: u64, mutate: bool, perturb: bool, expand: usize, cut: Option<(usize, usize)>) -> Outcome {
   let mut rng = StdRng::seed_from_u64(seed ^ (index as u64).wrapping_mul(0xD1B54A32D192ED03) ^ if mutate { 0x55 } else { 0 });
   let extra = vec![(rzmq::socket::options::MAXMSGSIZE, MAXMSG.to_ne_bytes().to_vec())];
   let mut ep = Endpoint::new(build_engine(&b.cfg, enc, None, &extra), b.cfg.mech == "ENC");
@@ -286,7 +315,7 @@ pub fn run(index: usize, b: &Behaviour, enc: EncImpl, seed: u64, mutate: bool, p
   let mut mutated: Option<String> = None;
   // in mutated mode one emitted token (chosen up front) is corrupted
   let emits: Vec<usize> = b.steps.iter().enumerate().filter(|(_, s)| s["a"].as_str() == Some("emit")).map(|(i, _)| i).collect();
-  let victim = if mutate && !emits.is_empty() { Some(emits[rng.random_range(0..emits.len())]) } else { None };
+  let victim = if mutate && cut.is_none() && !emits.is_empty() { Some(emits[rng.random_range(0..emits.len())]) } else { None };
 
   for (si, st) in b.steps.iter().enumerate() {
     match st["a"].as_str().unwrap_or("?") {
@@ -309,6 +338,18 @@ pub fn run(index: usize, b: &Behaviour, enc: EncImpl, seed: u64, mutate: bool, p
         labels.push(tok_label(&st["tok"]));
         if st["tok"]["b"]["b"].as_str() == Some("mech") && st["tok"]["b"]["ok"].as_bool().unwrap_or(false) {
           labels.push("(knows the password)".into());
+        }
+        if let Some((csi, k)) = cut {
+          if csi == si && bytes.len() >= 2 {
+            let long = bytes[0] & 0x02 != 0;
+            let hdr = if long { 9 } else { 2 };
+            let body: Vec<u8> = bytes[hdr.min(bytes.len())..].iter().take(k).cloned().collect();
+            let mut nb = vec![bytes[0] & !0x02];
+            nb.push(body.len().min(255) as u8);
+            nb.extend_from_slice(&body[..body.len().min(255)]);
+            bytes = nb;
+            mutated = Some(format!("body of {} cut to {} byte(s), frame header adjusted", labels.last().unwrap(), k));
+          }
         }
         if victim == Some(si) {
           let kind = rng.random_range(0..6);
